@@ -766,11 +766,27 @@ func (w *world) exec(op string) string {
 		k, okk := hx.KV(ws, "ses")
 		qn, e1 := strconv.Atoi(q)
 		kn, e2 := strconv.Atoi(k)
-		if len(ws) != 4 || !okq || !okk || e1 != nil || e2 != nil || qn < 0 || qn > 400 || kn < 0 || kn > 40 ||
+		// optional 5th token tmr=<n>: timers of A still pending when its run service is stopped
+		tn := 0
+		if len(ws) == 5 {
+			if !allNum(ws[1:], "tmr") {
+				return "bad-op"
+			}
+			tn = hx.KVInt(ws, "tmr")
+		}
+		if (len(ws) != 4 && len(ws) != 5) || !okq || !okk || e1 != nil || e2 != nil || qn < 0 || qn > 400 || kn < 0 || kn > 40 || tn > 60 ||
 			(who != "foreign" && who != "loop") || w.a == nil {
 			return "bad-op"
 		}
-		return w.stop(who == "loop", qn, kn)
+		return w.stop(who == "loop", qn, kn, tn)
+	case "relay":
+		to, _ := hx.KV(ws, "to")
+		n, busy := hx.KVInt(ws, "n"), hx.KVInt(ws, "busy")
+		if len(ws) != 4 || !allNum(ws[1:], "n", "busy") || n < 1 || n > 40 || busy > 1 ||
+			(to != "dead" && to != "peer" && to != "direct") || w.a == nil {
+			return "bad-op"
+		}
+		return w.relay(to, n, busy == 1)
 	}
 	return "bad-op"
 }
@@ -1001,6 +1017,62 @@ func (w *world) crash(q, post, tmr int) string {
 	return "ok A:" + w.a.m.report() + " B:" + nb.m.report()
 }
 
+// relayActor: an intermediary that is not a service (a router / forwarder on proto.actor's default
+// dispatcher: its own goroutine per mailbox run): it passes every ServiceRequest on, unchanged, to `target`
+type relayActor struct{ target *actor.PID }
+
+func (r *relayActor) Receive(ctx actor.Context) {
+	if req, ok := ctx.Message().(*messages.ServiceRequest); ok {
+		ctx.Send(r.target, req)
+	}
+}
+
+// relay: A, inside one piece, issues n requests that do not go straight to a living service:
+// to=peer through the intermediary on to B (B answers: `req` on B, `rsp` on A); to=dead through the
+// intermediary on to a pid that does not exist (the intermediary's goroutine hands the request to the
+// dead-letter process; nobody answers, A's callback gets the 30 s timeout: `tmo`); to=direct A itself sends
+// to the pid that does not exist.  With busy, A stays inside the issuing piece while the requests travel.
+// The completion callback of a request is A's code whatever becomes of the request.
+func (w *world) relay(to string, n int, busy bool) string {
+	a := w.a
+	nobody := actor.NewPID(w.sys.Address(), fmt.Sprintf("c04nobody%d", w.nCase))
+	target := nobody
+	if to == "peer" {
+		target = w.pb
+	}
+	dest := target
+	if to != "direct" {
+		dest = w.sys.Root.Spawn(actor.PropsFromProducer(func() actor.Actor { return &relayActor{target: target} }))
+		synctest.Wait()
+	}
+	a.Post(func() {
+		defer a.m.enter("post")()
+		for j := 0; j < n; j++ {
+			a.RequestEx(dest, "c04.hit", &messages.TestHello{I: int32(j)}, func(err error, msg interface{}) {
+				kind := "rsp"
+				if err == as.ErrTimeout {
+					kind = "tmo"
+				}
+				defer a.m.enter(kind)()
+			})
+		}
+		if busy {
+			time.Sleep(time.Millisecond)
+		}
+	})
+	settle()
+	if to != "peer" {
+		time.Sleep(33 * time.Second) // request timeout 30 s + the 1 s expiry scan
+		synctest.Wait()
+		settle()
+	}
+	if to != "direct" {
+		w.sys.Root.Stop(dest)
+		synctest.Wait()
+	}
+	return "ok A:" + a.m.report() + " B:" + w.b.m.report()
+}
+
 // settle waits until the work that is under way has drained: synctest.Wait returns when every goroutine
 // is blocked, and a handler dwelling in a (virtual) 1 µs sleep counts as blocked, so virtual time is let
 // pass and quiescence is awaited again
@@ -1032,7 +1104,13 @@ func (w *world) evmode(useChan bool) string {
 // itself); afterwards the connections close.  How many of the queued closures still run before the loop
 // sees the close signal is up to reflect.Select, so their count is not compared ("~"); after the stop
 // nothing of A may run anywhere but on A's goroutine (and in fact nothing runs at all).
-func (w *world) stop(fromLoop bool, q, k int) string {
+//
+// tn > 0: the long piece first arms tn one-shot timers (due alternately while the piece is still in progress
+// after the Stop, and after the piece has ended) and, from the third on, one repeating timer: StandardRunService.Stop
+// stops the timer manager first and does not wait for the loop, so all of them become due on a stopped manager.
+// A due timer of a stopped manager is dropped; whatever the code does with it, none of A's callbacks may run
+// on the runtime's timer goroutines.
+func (w *world) stop(fromLoop bool, q, k, tn int) string {
 	a := w.a
 	var conns []*fakeSession
 	for i := 0; i < k; i++ {
@@ -1045,6 +1123,17 @@ func (w *world) stop(fromLoop bool, q, k int) string {
 		defer a.m.enter("post")()
 		for j := 0; j < q; j++ {
 			a.Post(func() { defer a.m.enter("post")() })
+		}
+		tm := a.GetRunService().GetTimerMgr()
+		for j := 0; j < tn; j++ {
+			d := 500 * time.Microsecond
+			if j%2 == 1 {
+				d = 3 * time.Millisecond
+			}
+			tm.After(d, func(args ...interface{}) { defer a.m.enter("tmr")() })
+		}
+		if tn > 2 {
+			tm.AddTimer(700*time.Microsecond, func(args ...interface{}) { defer a.m.enter("tmr")() })
 		}
 		if fromLoop {
 			a.GetRunService().Stop()
@@ -1153,6 +1242,8 @@ var malformed = []string{"burst", "burst p=0 post=1 " + z13 + " tmo=0 sfl=0 ses=
 	"wfall n=0 steps=1 fail=0 by=loop", "wfall n=3 steps=2 fail=3 by=loop", "wfall n=3 steps=5 fail=0 by=helper", "wfall n=3 steps=2 fail=1 by=me", "wfall n=3 steps=2 fail=1",
 	"talk n=0 kick=0", "talk n=3001 kick=0", "talk n=5 kick=2", "talk n=5", "tcancel n=0", "tcancel n=51", "tcancel", "crash q=41 post=0 tmr=0", "crash q=1 post=101 tmr=0",
 	"crash q=1 post=1 tmr=21", "crash q=1 post=1",
+	"relay to=dead n=0 busy=0", "relay to=dead n=41 busy=0", "relay to=nowhere n=3 busy=0", "relay to=peer n=3 busy=2", "relay to=peer n=3",
+	"stop who=loop q=1 ses=1 tmr=61", "stop who=loop q=1 ses=1 tmr=x", "stop who=loop q=1 ses=1 rep=3",
 	"burst p=2 post=1", "reset now", "frobnicate", "burst p=2 post=401 " + z13 + " tmo=0 sfl=0 ses=0 msg=0 slow=0 z=0 sib=0 own=0 dw=spin"}
 
 func TestRun(t *testing.T) {
@@ -1215,7 +1306,14 @@ func TestRun(t *testing.T) {
 			}
 			k := 1 + h.R.Intn(5)
 			for i := 0; i < k; i++ {
-				switch x := h.R.Intn(63); {
+				switch x := h.R.Intn(67); {
+				case x >= 63:
+					// requests that travel through an intermediary actor, to the peer or to a pid that does not exist
+					to := []string{"dead", "dead", "peer", "direct"}[h.R.Intn(4)]
+					h.Count("op.relay." + to)
+					run(fmt.Sprintf("relay to=%s n=%d busy=%d", to, []int{1, 3, 12, 40}[h.R.Intn(4)], h.R.Intn(2)))
+					done++
+					continue
 				case x >= 50 && x < 55:
 					by := []string{"helper", "helper", "loop"}[h.R.Intn(3)]
 					steps := 1 + h.R.Intn(4)
@@ -1288,7 +1386,13 @@ func TestRun(t *testing.T) {
 			if h.R.Intn(3) == 0 {
 				who := []string{"foreign", "foreign", "loop"}[h.R.Intn(3)]
 				h.Count("case.stop-by-" + who)
-				run(fmt.Sprintf("stop who=%s q=%d ses=%d", who, []int{0, 1, 5, 40, 200}[h.R.Intn(5)], []int{0, 1, 6, 30}[h.R.Intn(4)]))
+				op := fmt.Sprintf("stop who=%s q=%d ses=%d", who, []int{0, 1, 5, 40, 200}[h.R.Intn(5)], []int{0, 1, 6, 30}[h.R.Intn(4)])
+				if h.R.Intn(2) == 0 {
+					// timers of A still pending when the run service stops
+					h.Count("case.stop-with-pending-timers")
+					op += fmt.Sprintf(" tmr=%d", []int{1, 2, 7, 30, 60}[h.R.Intn(5)])
+				}
+				run(op)
 				done++
 				if h.R.Intn(6) == 0 {
 					h.Count("op.after-stop")
